@@ -380,3 +380,9 @@ def run(prog, rep, tier):
             o = origins(lp, [nxt[0].term.args[0].place[0]])
             oki = any(f[-1] == 'private_keys' for f in o.fields)
             rep.ob('R07.5', oki, 'R07.5|%s|iterates-private_keys' % lp.nkey, 'loop iterates self.private_keys' if oki else 'loop does not iterate self.private_keys', lp.loc(nxt[0].idx))
+
+
+def thorough_extra(rep, verif, repo):
+    """type-level witnesses: key/nonce not settable from outside, EncryptionConfig not constructible, into_tag consumes the cipher"""
+    from .. import witness
+    return witness.run_witnesses(rep, verif, repo, 'R07.1w', ('R07_1', 'R06'))
